@@ -698,7 +698,7 @@ func singleDispatch(c *Ctx) {
 					// f, err := r.detectFormat(...); format = f
 					if def, ok := singleDefs(d.pkg, d.fd.Body)[objOf(d.pkg, id)]; ok {
 						if ce, ok := def.(*ast.CallExpr); ok {
-							if fn, _ := typeutil.Callee(d.pkg.TypesInfo, ce).(*types.Func); fn != nil && fn.Name() == "detectFormat" {
+							if fn, _ := typeutil.Callee(d.pkg.TypesInfo, ce).(*types.Func); fn != nil && strings.HasSuffix(objName(fn), ".detectFormat") {
 								fromDetect = true
 							}
 						}
